@@ -134,11 +134,61 @@ func bounds(p *sctimepb.Period) (lo, hi *big.Int) {
 func lt(a, b *big.Int) bool { return a == nil || b == nil || a.Cmp(b) < 0 } // absent bound = infinite
 func le(a, b *big.Int) bool { return a == nil || b == nil || a.Cmp(b) <= 0 }
 
+// argsModified runs the operation once more on fresh arguments and reports how the call changed them ("" if
+// it did not): the predicates, the comparison and the constructors only read their timestamps / periods.
+func (c tcase) argsModified() (mutated string) {
+	lib.Catch(func() {
+		switch c.Op {
+		case "cmp":
+			a, b := parseTs(c.A), parseTs(c.B)
+			sctime.CompareAscending(a, b)
+			if showTs(a) != c.A || showTs(b) != c.B {
+				mutated = showTs(a) + " " + showTs(b)
+			}
+		case "isect", "conn":
+			p, q := parsePeriod(c.A), parsePeriod(c.B)
+			var ps, pe, qs, qe *timestamppb.Timestamp
+			if p != nil {
+				ps, pe = p.StartTime, p.EndTime
+			}
+			if q != nil {
+				qs, qe = q.StartTime, q.EndTime
+			}
+			if c.Op == "isect" {
+				sctime.PeriodsIntersect(p, q)
+			} else {
+				sctime.PeriodsConnected(p, q)
+			}
+			if showPeriod(p) != c.A || showPeriod(q) != c.B ||
+				(p != nil && (p.StartTime != ps || p.EndTime != pe)) || (q != nil && (q.StartTime != qs || q.EndTime != qe)) {
+				mutated = showPeriod(p) + " " + showPeriod(q)
+			}
+		case "pbefore", "pafter", "pbetween":
+			a, b := parseTs(c.A), parseTs(c.B)
+			switch c.Op {
+			case "pbefore":
+				sctime.PeriodBefore(a)
+			case "pafter":
+				sctime.PeriodOnOrAfter(a)
+			default:
+				sctime.PeriodBetween(a, b)
+			}
+			if showTs(a) != c.A || showTs(b) != c.B {
+				mutated = showTs(a) + " " + showTs(b)
+			}
+		}
+	})
+	return mutated
+}
+
 // monitor evaluates the property's own statement on the real code's answer.
 func (c tcase) monitor(m *lib.Monitor, code string) {
 	if strings.HasPrefix(code, "panic:") {
 		m.Violate("C18/"+c.Op+"/panic", "operation panicked", c, "no panic", code)
 		return
+	}
+	if mut := c.argsModified(); mut != "" {
+		m.Violate("C18/"+c.Op+"/argument-modified", "the operation modified the timestamps / periods it was given", c, c.A+" "+c.B, mut)
 	}
 	switch c.Op {
 	case "pall", "pbefore", "pafter", "pbetween":
@@ -294,6 +344,11 @@ func randTs(r *rand.Rand) string {
 	default:
 		n = int32(r.Intn(1_000_000_000))
 	}
+	if r.Intn(12) == 0 {
+		// outside what timestamppb calls valid: the comparison is still a -1/0/1 lexicographic total order on
+		// the (int64, int32) fields (C18_compare_sign, C18_total_order), with no int32 wrap-around
+		n = []int32{math.MinInt32, math.MaxInt32, -1, 1_000_000_000, 2_000_000_000, math.MinInt32 + 1}[r.Intn(6)]
+	}
 	return fmt.Sprintf("%d:%d", s, n)
 }
 
@@ -329,7 +384,7 @@ func prepTime(f lib.Flags, res *lib.Result) func(drv *lib.Driver) {
 		"AllTime, PeriodBefore(a), PeriodOnOrAfter(a), PeriodBetween(a, b) for all a, b in {nil, 0..5}s x nanos {0,1,999999999}; non-trivial = some bound given")
 	k2c.Exhaustive = true
 	k1 := res.Tie("random-64bit", "K1",
-		"random timestamps over the full int64 seconds range (extremes, near-equal, random) and periods built from a shared pool so that equal/adjacent bounds are frequent; non-trivial = operands differ")
+		"random timestamps over the full int64 seconds range (extremes, near-equal, random; 1/12 with nanos outside [0, 1e9): MinInt32(+1), MaxInt32, -1, 1e9, 2e9 - compared with the model only, the chronological monitor needs valid nanos) and periods built from a shared pool so that equal/adjacent bounds are frequent; non-trivial = operands differ")
 	return func(drv *lib.Driver) {
 
 		// K2: the whole finite domain named by the property
